@@ -833,8 +833,9 @@ func fragmentations(L int, full bool, rng *rand.Rand) []frag {
 
 // recSet is a HandleSet recording everything.
 type invRep struct {
-	src string
-	err error
+	src  string
+	err  error
+	data []byte // copy of the line handed to HandleInvalid
 }
 type recSet struct {
 	adds []*hostsfile.Record
@@ -842,8 +843,8 @@ type recSet struct {
 }
 
 func (s *recSet) Add(r *hostsfile.Record) { s.adds = append(s.adds, r) }
-func (s *recSet) HandleInvalid(src string, _ []byte, err error) {
-	s.invs = append(s.invs, invRep{src, err})
+func (s *recSet) HandleInvalid(src string, data []byte, err error) {
+	s.invs = append(s.invs, invRep{src, err, bytes.Clone(data)})
 }
 
 // lineErrors collects the *LineError values of an error tree.
@@ -867,25 +868,33 @@ func lineErrors(err error, out []*hostsfile.LineError) []*hostsfile.LineError {
 
 // expLine is the specification's prediction for one line, made concrete.
 type expLine struct {
-	No int
+	No   int
+	Line []byte // the bytes of the line as the specification cut it
 	c07.Expect
 }
 
 // compareRun checks the events of one Parse call against the prediction.
 // adds in call order; invalid reports as (line error) values in any order.
-func compareRun(exp []expLine, srcName string, adds []*hostsfile.Record, invs []error) (what string, err error) {
+// invData, when not nil, holds the line each report came with (HandleSet:
+// "data is the original line from the hosts file, including spaces").
+func compareRun(exp []expLine, srcName string, adds []*hostsfile.Record, invs []error, invData [][]byte) (what string, err error) {
 	ai := 0
 	type rep struct {
-		le  *hostsfile.LineError
-		err error
+		le   *hostsfile.LineError
+		err  error
+		data []byte
 	}
 	byLine := map[int][]rep{}
-	for _, e := range invs {
+	for k, e := range invs {
 		var le *hostsfile.LineError
 		if !errors.As(e, &le) {
 			return fmt.Sprintf("invalid line reported with an error that is not a *LineError: %v", e), nil
 		}
-		byLine[le.Line] = append(byLine[le.Line], rep{le, e})
+		r := rep{le: le, err: e}
+		if invData != nil {
+			r.data = invData[k]
+		}
+		byLine[le.Line] = append(byLine[le.Line], r)
 	}
 	nInv := 0
 	for _, x := range exp {
@@ -919,6 +928,9 @@ func compareRun(exp []expLine, srcName string, adds []*hostsfile.Record, invs []
 				w = fmt.Sprintf("line %d: %s", x.No, w)
 			}
 			return w, herr
+		}
+		if invData != nil && !bytes.Equal(reps[0].data, x.Line) {
+			return fmt.Sprintf("line %d: HandleInvalid received %s, the line is %s", x.No, strconv.QuoteToASCII(string(reps[0].data)), strconv.QuoteToASCII(string(x.Line))), nil
 		}
 	}
 	if ai != len(adds) {
@@ -993,7 +1005,7 @@ func expectations(v *parseVec, parts []string) ([]expLine, error) {
 		if err != nil {
 			return nil, err
 		}
-		out = append(out, expLine{No: ev.No, Expect: e})
+		out = append(out, expLine{No: ev.No, Line: conc.Line, Expect: e})
 	}
 	return out, nil
 }
@@ -1026,10 +1038,11 @@ func runParse(kind string, data []byte, f frag, named bool, bufIdx int, exp []ex
 			return fmt.Sprintf("Parse into a HandleSet returned %v", perr), nil
 		}
 		invs := make([]error, len(set.invs))
+		datas := make([][]byte, len(set.invs))
 		for i, r := range set.invs {
-			invs[i] = r.err
+			invs[i], datas[i] = r.err, r.data
 		}
-		return compareRun(exp, srcName, set.adds, invs)
+		return compareRun(exp, srcName, set.adds, invs, datas)
 	case "plain":
 		var adds []*hostsfile.Record
 		set := hostsfile.FuncSet(func(r *hostsfile.Record) { adds = append(adds, r) })
@@ -1044,7 +1057,7 @@ func runParse(kind string, data []byte, f frag, named bool, bufIdx int, exp []ex
 		if perr != nil && len(les) == 0 {
 			return fmt.Sprintf("Parse returned %v without any *LineError", perr), nil
 		}
-		return compareRun(exp, srcName, adds, invs)
+		return compareRun(exp, srcName, adds, invs, nil)
 	case "storage":
 		ds, _ := hostsfile.NewDefaultStorage()
 		if pv, p := vh.Try(func() { perr = hostsfile.Parse(ds, rd, buf) }); p {
@@ -1315,7 +1328,7 @@ func recordParse(args []string) error {
 			maxLines = 200
 		}
 		data := randomInput(rng, tb, maxLines)
-		toks, segs, _ := abstractStream(data)
+		toks, segs, segText := abstractStream(data)
 		if len(toks) > 2500 {
 			continue
 		}
@@ -1339,6 +1352,7 @@ func recordParse(args []string) error {
 		tr.Emit(parseEv{Op: "src", I: i, S: toks, Named: named, Dst: dst, OK: true, Match: []int{}, Bad: []int{}})
 		var adds []*hostsfile.Record
 		var invs []error
+		var invData [][]byte
 		var perr error
 		endOK, endNote := true, ""
 		pv, panicked := vh.Try(func() {
@@ -1355,6 +1369,7 @@ func recordParse(args []string) error {
 				perr = hostsfile.Parse(set, rd, buf)
 				adds = set.adds
 				for _, r := range set.invs {
+					invData = append(invData, r.data)
 					invs = append(invs, r.err)
 				}
 				if perr != nil {
@@ -1387,7 +1402,7 @@ func recordParse(args []string) error {
 		}
 		// Invalid-line reports sorted by the line number they carry.
 		var invEvs []parseEv
-		for _, e := range invs {
+		for k, e := range invs {
 			ev := parseEv{Op: "inv", I: i, S: []string{}, Line: -1, Kind: "?", OK: true, Match: []int{}, Bad: []int{}}
 			var le *hostsfile.LineError
 			if !errors.As(e, &le) {
@@ -1397,6 +1412,9 @@ func recordParse(args []string) error {
 			}
 			ev.Line, ev.Kind = le.Line, c07.KindOf(e)
 			if le.Line >= 1 && le.Line <= len(segs) {
+				if invData != nil && !bytes.Equal(invData[k], segText[le.Line-1]) {
+					ev.OK, ev.Note = false, fmt.Sprintf("HandleInvalid received %s, the line is %s", strconv.QuoteToASCII(string(invData[k])), strconv.QuoteToASCII(string(segText[le.Line-1])))
+				}
 				a := &segs[le.Line-1]
 				switch ev.Kind {
 				case "NameErr":
